@@ -40,6 +40,7 @@ func worldConfig(t *rapid.T) sim.Config {
 		cfg.MaxValidators = uint32(cfg.NumValidators)
 	}
 	cfg.EpochsUntilUnbonded = uint32(rapid.IntRange(1, 3).Draw(t, "unbond"))
+	cfg.HistoricalEntries = []uint32{0, 0, 1, 3}[uniform(t, 4, "historical")] // 0 = the module's default
 	cfg.MinSelfDelegation = int64(rapid.SampledFrom([]int{0, 0, 1, 50}).Draw(t, "minSelf"))
 	for i := 0; i < cfg.NumValidators; i++ {
 		if cfg.SelfStake[i] < cfg.MinSelfDelegation || cfg.SelfStake[i] < 1 {
